@@ -2,6 +2,7 @@ import TLX.Props.C02Session
 import TLX.Props.C02Pipeline
 import TLX.Spec.QuicConnection
 import TLX.Props.C02Dissect
+import TLX.Props.C02Out
 set_option linter.unusedSimpArgs false
 set_option linter.unusedVariables false
 namespace TLX.Props.C02Capstone
@@ -330,5 +331,264 @@ theorem datagram_step (kl : List Keylog.Key) (L : SealLaws Pc) (sel : SuiteSel) 
   · simp only [c8, hsc, newCids_eq, issue_eq]
 
 end Composed
+
+section History
+variable (maskFn : Dissect.MaskFn) (H : Crypto.Prims) (Pc : Cipher.Prims) (info : Nat → Pipeline.Info)
+
+/-- the UDP payload of a 1-RTT datagram of this connection: protected under the key of its direction and generation -/
+def wireOf (L : SealLaws Pc) (sel : SuiteSel) (v : Version) (k0 : AppKeys) (d : Dg1) : Bytes :=
+  d.wire L.aeadSeal sel.alg (genDir (keyUpdate H sel v) k0 d.x.srv d.x.gen)
+
+/-- the captured frame `p` carries the datagram `d`: its UDP payload, its capture time, and its source is the client
+    endpoint iff the client sent it (no address migration) -/
+structure Carries (c : QConn) (w : Dg1 → Bytes) (p : MainLoop.Pkt) (d : Dg1) : Prop where
+  payload : p.payload = w d
+  ts : (info p.tag).ts = d.x.ts
+  dir : (p.src == c.client) = !d.x.srv
+
+/-- what both endpoints do in the 1-RTT phase, datagram by datagram (`gc gs`: generations shown, `lc ls`: largest packet
+    numbers captured, `cc sc`: connection IDs issued so far) -/
+def Send1 (L : SealLaws Pc) (sel : SuiteSel) (v : Version) (k0 : AppKeys) (hpC hpS : Bytes) (chacha : Bool) :
+    (gc gs lc ls : Nat) → (cc sc : List Bytes) → List Dg1 → Prop
+  | _, _, _, _, _, _, [] => True
+  | gc, gs, lc, ls, cc, sc, d :: rest =>
+    d.x.level = .oneRtt ∧ (if d.x.srv then gs else gc) ≤ d.x.gen ∧ d.x.gen ≤ (if d.x.srv then gs else gc) + 1 ∧
+    PnLenOk (if d.x.srv then ls else lc) d.x.pn d.x.pnLen ∧ WellFormedSeq d.x.frames ∧
+    DgOk maskFn Pc L sel.alg (genDir (keyUpdate H sel v) k0 d.x.srv d.x.gen) (if d.x.srv then hpS else hpC) chacha d ∧
+    DcidOk cc sc d.x.srv d.x.dcid ∧
+    Send1 L sel v k0 hpC hpS chacha (if d.x.srv then gc else d.x.gen) (if d.x.srv then d.x.gen else gs)
+      (if d.x.srv then lc else max lc d.x.pn) (if d.x.srv then max ls d.x.pn else ls)
+      (if d.x.srv then cc else issue cc (newCids d.x.frames))
+      (if d.x.srv then issue sc (newCids d.x.frames) else sc) rest
+
+/-- the main loop hands the datagrams to the session one by one (`handle_packet(packet, dcid, UNKNOWN)`; the routing DCID is
+    the packet's: `Props/C04`) -/
+def feedAll (QM : MainLoop.QuicMachine Keylog.Key QConn Pipeline.OutPkt) (kl : List Keylog.Key) (c : QConn) :
+    List (MainLoop.Pkt × Dg1) → QConn
+  | [] => c
+  | (p, d) :: rest => feedAll QM kl (QM.feed c kl p d.x.dcid .unknown) rest
+
+theorem feedAll_exact (kl : List Keylog.Key) (L : SealLaws Pc) (sel : SuiteSel) (v : Version) (k0 : AppKeys)
+    (hpC hpS : Bytes) (chacha : Bool) (hk : KeysWf (params H Pc kl) sel v k0)
+    (items : List (MainLoop.Pkt × Dg1)) (c : QConn) (gc gs lc ls : Nat) (cc sc : List Bytes)
+    (hr : c.raised = none)
+    (hest : Est H Pc kl sel v k0 hpC hpS chacha c.st gc gs lc ls cc sc)
+    (hcar : ∀ x ∈ items, Carries info c (wireOf H Pc L sel v k0) x.1 x.2)
+    (hsend : Send1 maskFn H Pc L sel v k0 hpC hpS chacha gc gs lc ls cc sc (items.map (·.2))) :
+    let c' := feedAll (quicMachine maskFn H Pc info) kl c items
+    c'.raised = none ∧ c'.st.out = c.st.out ++ (items.map (·.2)).flatMap (fun d => expectedOf .rtt1 d.x) ∧
+    c'.opts = c.opts ∧ c'.server = c.server ∧ c'.client = c.client ∧ c'.serverMac = c.serverMac ∧
+    c'.clientMac = c.clientMac ∧ c'.ipv6 = c.ipv6 ∧
+    ∃ gc' gs' lc' ls', Est H Pc kl sel v k0 hpC hpS chacha c'.st gc' gs' lc' ls'
+      (finalCids cc sc (items.map (·.2))).1 (finalCids cc sc (items.map (·.2))).2 := by
+  induction items generalizing c gc gs lc ls cc sc with
+  | nil => exact ⟨hr, by simp [feedAll], rfl, rfl, rfl, rfl, rfl, rfl, gc, gs, lc, ls, hest⟩
+  | cons it rest ih =>
+    obtain ⟨p, d⟩ := it
+    obtain ⟨h1, h2, h3, h4, h5, h6, h7, h8⟩ := hsend
+    obtain ⟨w1, w2, w3⟩ := hcar (p, d) (List.mem_cons_self ..)
+    obtain ⟨s1, s2, s3⟩ := datagram_step maskFn H Pc kl L sel v k0 hpC hpS chacha hk c.st gc gs lc ls cc sc hest d
+      h1 h2 h3 h4 h5 h6 h7
+    have hfeed : (quicMachine maskFn H Pc info).feed c kl p d.x.dcid .unknown =
+        { c with st := (handleDatagram maskFn H (params H Pc kl) c.st (!d.x.srv) d.x.dcid .unknown d.x.ts
+                          (wireOf H Pc L sel v k0 d)).1, raised := none } := by
+      simp only [quicMachine, hr, sver]
+      rw [w1, w2, w3]
+      unfold wireOf
+      rw [s1]
+    simp only [feedAll, List.map_cons, List.flatMap_cons, finalCids]
+    rw [hfeed]
+    obtain ⟨i1, i2, i3, i4, i5, i6, i7, i8, i9⟩ := ih
+      { c with st := (handleDatagram maskFn H (params H Pc kl) c.st (!d.x.srv) d.x.dcid .unknown d.x.ts
+                          (wireOf H Pc L sel v k0 d)).1, raised := none } _ _ _ _ _ _ rfl s3
+      (fun x hx => by
+        obtain ⟨a, b, cdir⟩ := hcar x (List.mem_cons_of_mem _ hx)
+        exact ⟨a, b, cdir⟩) h8
+    refine ⟨i1, ?_, i3, i4, i5, i6, i7, i8, i9⟩
+    rw [i2]
+    show (handleDatagram _ _ _ _ _ _ _ _ _).1.out ++ _ = _
+    rw [show (handleDatagram maskFn H (params H Pc kl) c.st (!d.x.srv) d.x.dcid .unknown d.x.ts
+                  (wireOf H Pc L sel v k0 d)).1.out = c.st.out ++ expectedOf .rtt1 d.x from s2, List.append_assoc]
+
+end History
+
+/-! ### the output builder on the frames of a 1-RTT history -/
+
+section Output
+open TLX.Quic.UdpOut TLX.Props.C02Out
+
+theorem frameOf_ts (o : Out) : (frameOf o).ts = o.ts ∧ (frameOf o).isServer = o.isServer := by
+  unfold frameOf; repeat' split
+  all_goals exact ⟨rfl, rfl⟩
+
+/-- the input datagram of `Props/C02Out` that a 1-RTT packet becomes in `output_buffer` -/
+def inDg (x : SPkt) : InDgram :=
+  ⟨x.ts, x.srv, ((expectedOf .rtt1 x).map frameOf).map fun f => (f.ftype, f.data)⟩
+
+theorem inDg_frames (x : SPkt) : (inDg x).frames = (expectedOf .rtt1 x).map frameOf := by
+  unfold inDg InDgram.frames expectedOf
+  simp only [List.map_map]
+  apply List.map_congr_left
+  intro f _
+  obtain ⟨h1, h2⟩ := frameOf_ts ⟨.parsed f.toParsed, x.ts, x.srv, .rtt1⟩
+  simp only [Function.comp]
+  generalize frameOf ⟨.parsed f.toParsed, x.ts, x.srv, .rtt1⟩ = fr at h1 h2
+  obtain ⟨a, b, c, d⟩ := fr
+  simp only at h1 h2
+  rw [h1, h2]
+
+theorem streamType_isStream (a b c : Bool) : isStream (streamType a b c) = true := by
+  cases a <;> cases b <;> cases c <;> decide
+
+theorem normalize_streamData (fs : List QFrame) : streamData (normalize fs) = streamData fs := by
+  induction fs with
+  | nil => rfl
+  | cons f rest ih =>
+    by_cases hp : f.isPadding = true
+    · cases f <;> simp [QFrame.isPadding] at hp
+      rename_i a
+      rcases Lemmas.QuicFrameSeq.normalize_pad_cases a rest with ⟨h0, h1⟩ | ⟨b, r, h0, h1⟩ | ⟨g, r, h0, _, h1⟩
+      · rw [h1]; rw [h0] at ih; simp [streamData] at ih ⊢; exact ih
+      · rw [h1]; rw [h0] at ih; simp [streamData] at ih ⊢; exact ih
+      · rw [h1]; rw [h0] at ih; simp [streamData] at ih ⊢; exact ih
+    · rw [Lemmas.QuicFrameSeq.normalize_nonpad f rest (by simpa using hp)]
+      cases f <;> simp [streamData, List.filterMap_cons] at ih ⊢ <;> exact ih
+
+theorem filterMap_map_filter {α β γ : Type} (p : α → Bool) (g : α → β) (e : β → Option γ) (h : α → Option γ)
+    (hh : ∀ a, (if p a then e (g a) else none) = h a) (l : List α) :
+    ((l.filter p).map g).filterMap e = l.filterMap h := by
+  induction l with
+  | nil => rfl
+  | cons a l ih =>
+    have := hh a
+    by_cases hp : p a = true
+    · simp only [hp, if_true] at this
+      simp [List.filter_cons, hp, List.filterMap_cons, this, ih]
+    · simp only [hp, Bool.false_eq_true, if_false] at this
+      simp [List.filter_cons, hp, List.filterMap_cons, ← this, ih]
+
+theorem exported_one (f : QFrame) (ts : Nat) (srv : Bool) :
+    (if Lemmas.QuicSession.isExp f then UdpOut.exported false (frameOf ⟨.parsed f.toParsed, ts, srv, .rtt1⟩) else none) =
+      (match f with | .stream _ _ _ _ data => some data | _ => none) := by
+  cases f with
+  | stream fin sid off lenW data =>
+    have := streamType_isStream fin lenW.isSome off.isSome
+    simp [Lemmas.QuicSession.isExp, frameOf, QFrame.toParsed, UdpOut.exported, this]
+  | _ => simp [Lemmas.QuicSession.isExp, frameOf, QFrame.toParsed, UdpOut.exported, isStream]
+
+theorem exported_stream_data (x : SPkt) :
+    ((expectedOf .rtt1 x).map frameOf).filterMap (UdpOut.exported false) = streamData x.frames := by
+  rw [← normalize_streamData]
+  unfold expectedOf
+  rw [Lemmas.QuicSession.exported_eq, List.map_map]
+  exact filterMap_map_filter _ _ _ _ (fun f => exported_one f x.ts x.srv) _
+
+
+theorem any_isSome_filterMap {α β : Type} (e : α → Option β) (l : List α) :
+    l.any (fun a => (e a).isSome) = !(l.filterMap e).isEmpty := by
+  induction l with
+  | nil => rfl
+  | cons a l ih => cases h : e a <;> simp [List.filterMap_cons, h, ih]
+
+theorem hasStream_iff (fs : List QFrame) : hasStream fs = !(streamData fs).isEmpty := by
+  unfold hasStream streamData
+  induction fs with
+  | nil => rfl
+  | cons f fs ih => cases f <;> simp [List.filterMap_cons, ih]
+
+theorem hasExported_inDg (x : SPkt) : hasExported false (inDg x) = hasStream x.frames := by
+  unfold hasExported
+  rw [any_isSome_filterMap, inDg_frames, exported_stream_data, hasStream_iff]
+
+theorem outDgram_inDg (x : SPkt) : outDgram false (inDg x) = ⟨x.srv, x.ts, (streamData x.frames).flatten⟩ := by
+  unfold outDgram
+  rw [inDg_frames, exported_stream_data]
+  rfl
+
+theorem build_skip_prefix (old new : List Frame) (h : ∀ f ∈ old, UdpOut.exported false f = none) :
+    build false (old ++ new) = build false new := by
+  rw [build_eq_runs, build_eq_runs, List.filter_append]
+  have : old.filter (fun f => (UdpOut.exported false f).isSome) = [] := by
+    rw [List.filter_eq_nil_iff]; intro f hf; simp [h f hf]
+  rw [this, List.nil_append]
+
+theorem connOut_eq (md : Bool) (c : QConn) :
+    connOut md c = (build md (c.st.out.map frameOf)).map (addressed c) := by
+  unfold connOut
+  split
+  · rename_i h
+    have : c.st.out = [] := by simpa using h
+    rw [this]; rfl
+  · rfl
+
+theorem addressed_congr (c c' : QConn) (h1 : c'.opts = c.opts) (h2 : c'.server = c.server) (h3 : c'.client = c.client)
+    (h4 : c'.serverMac = c.serverMac) (h5 : c'.clientMac = c.clientMac) (h6 : c'.ipv6 = c.ipv6) :
+    addressed c' = addressed c := by
+  funext d; unfold addressed; rw [h1, h2, h3, h4, h5, h6]
+end Output
+
+/-! ### C02 for the 1-RTT phase of a connection, end to end in the composed model -/
+
+section Capstone
+variable (maskFn : Dissect.MaskFn) (H : Crypto.Prims) (Pc : Cipher.Prims) (info : Nat → Pipeline.Info)
+open TLX.Quic.UdpOut TLX.Props.C02Out
+
+/-- what C02 demands: one UDP frame per datagram that carried a STREAM frame, in capture order, its payload the
+    concatenation of that datagram's STREAM data, with the datagram's capture time, addressed by its direction
+    (`C02Pipeline.quic_out_addressed` says what `addressed` puts around it) -/
+def expectedOut (c : QConn) (ds : List Dg1) : List Pipeline.OutPkt :=
+  (ds.filter fun d => hasStream d.x.frames).map fun d =>
+    addressed c ⟨d.x.srv, d.x.ts, (streamData d.x.frames).flatten⟩
+
+theorem out_tail (c : QConn) (ds : List Dg1) :
+    (((ds.map fun d => inDg d.x).filter (hasExported false)).map (outDgram false)).map (addressed c) =
+      expectedOut c ds := by
+  unfold expectedOut
+  induction ds with
+  | nil => rfl
+  | cons d ds ih =>
+    simp only [List.map_cons, List.filter_cons, hasExported_inDg]
+    split
+    · simp only [List.map_cons, outDgram_inDg, ih]
+    · exact ih
+
+theorem quic_one_rtt_connection_exact (kl : List Keylog.Key) (L : SealLaws Pc) (sel : SuiteSel) (v : Version)
+    (k0 : AppKeys) (hpC hpS : Bytes) (chacha : Bool) (hk : KeysWf (params H Pc kl) sel v k0)
+    (items : List (MainLoop.Pkt × Dg1)) (c : QConn) (gc gs lc ls : Nat) (cc sc : List Bytes)
+    (hr : c.raised = none)
+    (hest : Est H Pc kl sel v k0 hpC hpS chacha c.st gc gs lc ls cc sc)
+    (hprev : ∀ o ∈ c.st.out, UdpOut.exported false (frameOf o) = none)
+    (hcar : ∀ x ∈ items, Carries info c (wireOf H Pc L sel v k0) x.1 x.2)
+    (hsend : Send1 maskFn H Pc L sel v k0 hpC hpS chacha gc gs lc ls cc sc (items.map (·.2)))
+    (htimes : ((items.map (·.2)).map fun d => (d.x.ts, d.x.srv)).Pairwise (· ≠ ·)) :
+    let QM := quicMachine maskFn H Pc info
+    (feedAll QM kl c items).raised = none ∧
+    QM.out false (feedAll QM kl c items) = expectedOut c (items.map (·.2)) := by
+  intro QM
+  obtain ⟨e1, e2, e3, e4, e5, e6, e7, e8, _⟩ := feedAll_exact maskFn H Pc info kl L sel v k0 hpC hpS chacha hk items c
+    gc gs lc ls cc sc hr hest hcar hsend
+  refine ⟨e1, ?_⟩
+  show connOut false (feedAll QM kl c items) = _
+  rw [connOut_eq, addressed_congr c _ e3 e4 e5 e6 e7 e8, e2, List.map_append,
+    build_skip_prefix _ _ (by
+      intro f hf
+      obtain ⟨o, ho, rfl⟩ := List.mem_map.mp hf
+      exact hprev o ho)]
+  have hframes : ∀ ds : List Dg1, (ds.flatMap fun d => expectedOf .rtt1 d.x).map frameOf =
+      framesOf (ds.map fun d => inDg d.x) := by
+    intro ds
+    induction ds with
+    | nil => rfl
+    | cons d ds ih =>
+      simp only [List.flatMap_cons, List.map_append, List.map_cons, framesOf] at ih ⊢
+      rw [ih, inDg_frames]
+  have hdist : DistinctKeys ((items.map (·.2)).map fun d => inDg d.x) := by
+    unfold DistinctKeys
+    rw [List.map_map]
+    exact htimes
+  rw [hframes _, build_groups false _ (hdist.adjacent false)]
+  exact out_tail c _
+
+end Capstone
 
 end TLX.Props.C02Capstone
